@@ -3,9 +3,9 @@ from checks import _storage
 
 MANIFEST = {
     "engine": {"name": "storage", "path": "spec/storage, shim/fsrec.c",
-               "kind_free_text": "LD_PRELOAD file-system recorder -> crash images at operation boundaries under two crash models "
+               "kind_free_text": "TLA+ Storage/StorageMC/StorageTrace (TLC); LD_PRELOAD file-system recorder -> crash images at operation boundaries under two crash models "
                                  "-> real recovery in a child process -> oracle from the abstract commit history"},
-    "category": "exploration",
+    "category": "model_checking",
     "text": ("Seeded workloads (tiny memtables so that rotation / flush / compaction / WAL clean-up run constantly; immediate and "
              "eventual durability mixed; explicit WAL flushes) run on a real Tree under a recorder of every file-system "
              "operation; for crash instants around every rename / unlink / fsync / create and every acknowledgement, the "
@@ -15,13 +15,15 @@ MANIFEST = {
     "design_ref": "DESIGN.md §4 C02",
     "note": ("Single committer per workload (the commit order is the issue order); 6 option sets; power-loss images: all unsynced "
              "appended bytes dropped / half of them kept; namespace operations kept in order as the property's crash model says. "
-             "The TLA+ storage model is not bound to this check yet - level claimed accordingly."),
-    "technique": "crash-image enumeration on the real engine from a recorded operation log (model-based oracle: prefix of the commit history)",
+             "spec/storage/Storage.tla is model checked (every reachable state = a crash instant, both models; the model of the "
+             "pinned behaviour must still violate all four invariants) and bound to the code by StorageTrace.tla, which "
+             "validates the abstracted operation log of every workload: mechanism rules at every real step, Obs_* on every image."),
+    "technique": "TLA+ model checking of the storage model (TLC) + trace validation of recorded executions + crash-image enumeration on the real engine",
 }
-LEVEL = "exploration"
 
 
 def run(ctx):
+    _storage.model_check(ctx)
     tot = _storage.run_sweep(ctx, ctx.pick(18, 96), ctx.pick(120, 2000), ["process", "synced", "mid"], gen2=ctx.pick(1, 4))
     ctx.cov["evaluations"] = tot["images"] + tot["gen2_images"]
     ctx.cov["distinct_nontrivial"] = tot["images"]
